@@ -279,6 +279,12 @@ class Program:
                 st = normalize.normalize_module(mod.tree, None if mixin else _PROPERTY_NAMES)
                 if st:
                     self.inlined.setdefault(rel, {}).update(st)
+                if st.get("dispatch_tables"):
+                    # calls through a table entry are direct calls now: inline the new private helpers among them
+                    from .inline import inline_module
+                    n, names = inline_module(mod.tree)
+                    if n:
+                        normalize.normalize_module(mod.tree, None if mixin else _PROPERTY_NAMES)
 
     def _resolve_from(self, mod, level, name):
         """dotted module named by ``from <level dots><name> import``"""
